@@ -298,6 +298,9 @@ def run(ctx: Ctx, thorough=None):
     tie_ev = [(r["ev"][1], r["ev"][2], r["ev"][3]) for r in recs[:: max(1, len(recs) // (24 if thorough else 6))]]
     cphot_srctie.helpers(ctx, "C06", tie_ev)
     cphot_srctie.run_head_tail(ctx, "C06", tie_ev + [(0.0, 3.0, 1.0), (float(np.radians(0.5)), 0.0, 0.01)], [525.0, 33.0, 1000.0])
+    # the body of `run` between head and tail (per-element translations; a cloud top inside the shower for two of the events)
+    body_ev = tie_ev[:: (1 if thorough else 2)][: (12 if thorough else 4)]
+    cphot_srctie.body(ctx, "C06", [(b_, a_, e_, None) for (b_, a_, e_) in body_ev] + [(b_, a_, e_, a_ + 4.0) for (b_, a_, e_) in body_ev[:2]])
     # The two sections below call internal methods of the kernel with the signatures of the modelled code. They only
     # localise a drift; if the code was refactored so that they no longer fit, that is a broken correspondence
     # (the end-to-end comparison above still decides the property), not a failure of the check.
